@@ -1538,7 +1538,17 @@ fn c21_worker(_i: usize, c: &MCase) -> Vec<u8> {
 /// run cases one per worker record and judge them
 fn c21_run_cases(cases: &[MCase], kf: &C21Kf) -> Vec<(Scan, C21Judgement)> {
     let t0 = std::time::Instant::now();
-    let ocs = run_isolated(cases, 5000, &c21_worker);
+    let mut ocs = run_isolated(cases, 30_000, &c21_worker);
+    // Exit(-2) / Exit(-3) are the runner's own markers for "verdict lost" (a worker killed on
+    // timeout had already finished further cases whose records were not read): such cases
+    // have no verdict yet, so they are run again on their own; a verdict lost twice counts
+    // as a timeout, never as a failure.
+    for i in 0..ocs.len() {
+        if matches!(ocs[i], Outcome::Exit(-2) | Outcome::Exit(-3)) {
+            let again = run_isolated(std::slice::from_ref(&cases[i]), 30_000, &c21_worker).remove(0);
+            ocs[i] = if matches!(again, Outcome::Exit(-2) | Outcome::Exit(-3)) { Outcome::Timeout } else { again };
+        }
+    }
     let t1 = t0.elapsed();
     let r = cases
         .iter()
@@ -2339,12 +2349,14 @@ fn live_fill_into(out: &mut Vec<u8>, n: usize, salt: u32, alpha: &[u8]) {
         at = 0;
     }
 }
+#[allow(dead_code)]
 fn live_fill(n: usize, salt: u32, alpha: &[u8]) -> Vec<u8> {
     let mut out = Vec::with_capacity(n);
     live_fill_into(&mut out, n, salt, alpha);
     out
 }
 
+#[allow(dead_code)]
 impl LiveCmd {
     fn request(&self) -> Vec<u8> {
         let mut out = Vec::new();
